@@ -113,10 +113,19 @@ int main(int argc, char **argv)
         else if (!strcmp(op, "triU")) { a_real_triU(d1, X, O); }
         else if (!strcmp(op, "triU1")) { a_real_triU1(d1, X, O); }
         else if (!strcmp(op, "triU2")) { a_real_triU2(d1, d2, X, O); }
-        else if (!strcmp(op, "mulmm")) { a_real_mulmm(d1, d2, d3, X, Y, O); }
-        else if (!strcmp(op, "mulTm")) { a_real_mulTm(d1, d2, d3, X, Y, O); }
-        else if (!strcmp(op, "mulmT")) { a_real_mulmT(d1, d2, d3, X, Y, O); }
-        else if (!strcmp(op, "mulTT")) { a_real_mulTT(d1, d2, d3, X, Y, O); }
+        else if (!strncmp(op, "mul", 3))
+        {
+            /* when one operand's contents are a prefix of the other's, BOTH are passed as the same read-only buffer (two shapes read
+               from one array: allowed for const restrict operands that are not modified); the result must not depend on that */
+            double const *Xp = X, *Yp = Y;
+            size_t const mn = nx < ny ? nx : ny;
+            if (mn && !memcmp(X, Y, sizeof(double) * mn)) { if (nx >= ny) { Yp = X; } else { Xp = Y; } }
+            if (!strcmp(op, "mulmm")) { a_real_mulmm(d1, d2, d3, Xp, Yp, O); }
+            else if (!strcmp(op, "mulTm")) { a_real_mulTm(d1, d2, d3, Xp, Yp, O); }
+            else if (!strcmp(op, "mulmT")) { a_real_mulmT(d1, d2, d3, Xp, Yp, O); }
+            else if (!strcmp(op, "mulTT")) { a_real_mulTT(d1, d2, d3, Xp, Yp, O); }
+            else { known = 0; }
+        }
         else { known = 0; }
         fl = fetestexcept(FE_INEXACT | FE_INVALID | FE_OVERFLOW | FE_UNDERFLOW | FE_DIVBYZERO);
         printf("%s %u %u %u ", op, d1, d2, d3);
